@@ -71,11 +71,31 @@ def build_harness(race=False):
         return out
     os.makedirs(os.path.dirname(out), exist_ok=True)
     shutil.copyfile(os.path.join(REPO, "go.sum"), os.path.join(HARNESS, "go.sum"))
+    # the harness module replaces the memefish module by the tree under test (default /repo)
+    gm = os.path.join(HARNESS, "go.mod")
+    want = "module mfverif\n\ngo 1.23.0\n\nrequire (\n\tgithub.com/cloudspannerecosystem/memefish v0.0.0\n)\n\nreplace github.com/cloudspannerecosystem/memefish => %s\n" % REPO
+    if REPO != "/repo" or open(gm).read() != want:
+        if REPO != "/repo":
+            # never rewrite the committed go.mod for an alternative tree: build from a private copy of the harness
+            alt = os.path.join(WORK, "harness-alt")
+            shutil.rmtree(alt, ignore_errors=True)
+            shutil.copytree(HARNESS, alt)
+            with open(os.path.join(alt, "go.mod"), "w") as fh:
+                fh.write(want)
+            shutil.copyfile(os.path.join(REPO, "go.sum"), os.path.join(alt, "go.sum"))
+            return _go_build(alt, out, race)
+        with open(gm, "w") as fh:
+            fh.write(want)
+    return _go_build(HARNESS, out, race)
+
+
+def _go_build(src, out, race):
+    global _built
     cmd = ["go", "build", "-tags", "verif", "-o", out]
     if race:
         cmd.insert(2, "-race")
     t = time.time()
-    p = run(cmd + ["."], cwd=HARNESS, env=goenv(), check=False, timeout=900)
+    p = run(cmd + ["."], cwd=src, env=goenv(), check=False, timeout=900)
     if p.returncode != 0:
         # a tree that no longer compiles is not a property violation
         raise Infra("harness does not build against %s:\n%s" % (REPO, p.stdout[-4000:]))
